@@ -18,10 +18,13 @@
     rogw/tranp/implements/cpp/view/cpp_view_helper.py
       CppViewHelper.Param.parse        :42-65
     rogw/tranp/implements/cpp/transpiler/py2cpp.py   (the production callers named in the property's anchors)
-      Py2Cpp.proc_for_range            :495-508   range(...) argument splitting
-      Py2Cpp.on_throw                  :740-751   throw argument splitting
-      Py2Cpp.on_dict_comp              :1373-1379 dict-comprehension projection splitting
-      PatternParser.pluck_func_call_arguments :1779-1793, .break_indexer :1844-1858, .pluck_cvar_new :1860-1874
+      Py2Cpp.on_throw                  :748-759   throw argument splitting
+      Py2Cpp.on_dict_comp              :1381-1388 dict-comprehension projection splitting
+      Py2Cpp.is_initializer_call       :693-698   "the whole right-hand side is a constructor call of the type"
+      PatternParser.pluck_func_call_arguments :1790-1804 (used by proc_for_enumerate :513 and the comp templates),
+        .break_indexer :1855-1869, .pluck_cvar_new :1871-1885
+      (Py2Cpp.proc_for_range split `range(a, b)` with these helpers until /repo ed1a7d7, which takes the arguments from the
+       syntax tree instead; `splitCallArguments` below keeps that former composition as a statement about the helpers only)
     rogw/tranp/view/helper/decorator.py
       DecoratorHelper.any / any_args   :96-104, 116-124;  DecoratorQuery.any / any_args / contains :189-197, 209-217, 229-241
   (tree after the four C18 repairs 3111a97, d6d867d, eb33d21, f350973)
@@ -377,10 +380,13 @@ def breakIndexer (indexer : Str) : Except Err (Str × Str) := breakLastBlock ind
 /-- `PatternParser.pluck_cvar_new(argument)`: `break_last_block(argument, '()')`. -/
 def pluckCvarNew (argument : Str) : Except Err (Str × Str) := breakLastBlock argument ['(', ')']
 
-/-- `Py2Cpp.proc_for_range` (py2cpp.py:499-508): the template variables (begin, size, step) for `for_in = 'range(…)'`;
-    `argsNum` is the number of argument nodes. Tuple unpacking of a list of another length is `ValueError`. -/
-def forRangeVars (forIn : Str) (argsNum : Nat) : Except Err (Str × Str × Str) :=
-  (pluckFuncCallArguments forIn).bind fun joinArgs =>
+/-- NOT a production call site any more. Until /repo ed1a7d7 `Py2Cpp.proc_for_range` computed (begin, size, step) as
+    `break_separator(pluck_func_call_arguments(for_in), ',')` with tuple unpacking (`ValueError` for another number of
+    pieces); the fix takes the arguments from the syntax tree because a `<` inside an argument (`a << 1`, `a < b`) opens a
+    `<>` block for the scanner and swallows the commas. The composition is kept as a definition about the two helpers:
+    `splitCallArguments 'f(a, b)' 2 = ('a', 'b', '1')`; `argsNum` is the number of arguments expected. -/
+def splitCallArguments (callText : Str) (argsNum : Nat) : Except Err (Str × Str × Str) :=
+  (pluckFuncCallArguments callText).bind fun joinArgs =>
   if argsNum = 1 then .ok (['0'], joinArgs, ['1'])
   else (breakSeparator joinArgs [',']).bind fun pieces =>
     if argsNum = 2 then
@@ -391,6 +397,12 @@ def forRangeVars (forIn : Str) (argsNum : Nat) : Except Err (Str × Str × Str) 
       match pieces with
       | [b, s, st] => .ok (b, s, st)
       | _ => .error .ValueError
+
+/-- `Py2Cpp.is_initializer_call(value, var_type)` (py2cpp.py:693-698): `value` starts with `var_type(`, ends with `)` and the
+    prefix of its last parenthesis group is `var_type` (`A(1).dup()` is not an initializer call). -/
+def isInitializerCall (value varType : Str) : Except Err Bool :=
+  if !(Str.startsWith value (varType ++ ['('])) || !(Str.endsWith value [')']) then .ok false
+  else (breakLastBlock value ['(', ')']).bind fun r => .ok (decide (r.1 = varType))
 
 /-- `Py2Cpp.on_throw` for a call (py2cpp.py:743-747): `calls = throws[:end_calls]` and the argument pieces of
     `throws[end_calls + 1:-1]` (`find` = -1 when there is no `(`: both slices then run to the last character). -/
